@@ -157,6 +157,16 @@ def markdown_escape_word(word: str) -> str:
     return word
 
 
+def markdown_escape_first_line(lines: list[str]) -> None:
+    """
+    A paragraph may begin with a word like `---` (as in `--- and more`). If wrapping leaves
+    it alone on the paragraph's first line, it would become a thematic break (or a frontmatter
+    delimiter), so it is escaped. Modifies `lines` in place.
+    """
+    if len(lines) > 1 and _md_thematic_pat.match(lines[0]):
+        lines[0] = markdown_escape_word(lines[0])
+
+
 def wrap_paragraph_lines(
     text: str,
     width: int,
@@ -240,11 +250,6 @@ def wrap_paragraph_lines(
             line = line.strip()
         lines.append(line)
 
-    # A paragraph may begin with a word like `---` (as in `--- and more`). If wrapping
-    # leaves it alone on the first line, it would become a thematic break (or frontmatter).
-    if is_markdown and len(lines) > 1 and _md_thematic_pat.match(lines[0]):
-        lines[0] = markdown_escape_word(lines[0])
-
     return lines
 
 
@@ -274,6 +279,8 @@ def wrap_paragraph(
         len_fn=len_fn,
         is_markdown=is_markdown,
     )
+    if is_markdown:
+        markdown_escape_first_line(lines)
     # Now insert indents on first and subsequent lines, if needed.
     if initial_indent and initial_column == 0 and len(lines) > 0:
         lines[0] = initial_indent + lines[0]
